@@ -8,6 +8,9 @@ mod writer;
 mod segtree;
 mod treap;
 mod bitset;
+mod mint;
+mod gcd;
+mod rational;
 
 use util::arg_value;
 
@@ -38,6 +41,9 @@ fn main() {
         ("treap", "record-shape") => treap::record_shape(seed, &tier, &out),
         ("bitset", "replay") => bitset::replay(&args[3], &out),
         ("bitset", "record") => bitset::record(seed, &tier, &out),
+        ("gcd", "record") => gcd::record(seed, &tier, &out),
+        ("rational", "record") => rational::record(seed, &tier, &out),
+        ("mint", "record") => mint::record(seed, &tier, &out),
         ("writer", "replay") => writer::replay(&args[3], &out),
         ("writer", "record") => writer::record(seed, &tier, &out),
         _ => {
